@@ -2,6 +2,7 @@
 
 import logging
 import os
+import shlex
 
 from jade.jobs.job_execution_interface import JobExecutionInterface
 
@@ -39,11 +40,11 @@ class GenericCommandExecution(JobExecutionInterface):
         # These jobs already have a command and are not run with jade-internal.
         cmd = job.command
         if job.append_job_name:
-            cmd += f" --jade-job-name={job.name}"
+            cmd += f" --jade-job-name={shlex.quote(job.name)}"
         if job.append_output_dir:
             # output is jobs-output
             output_dir = os.path.dirname(output)
-            cmd += f" --jade-runtime-output={output_dir}"
+            cmd += f" --jade-runtime-output={shlex.quote(output_dir)}"
         return cmd
 
     def list_results_files(self):
